@@ -12,6 +12,7 @@ import GM.Proof.RenderWF.Main
 import GM.Proof.RenderWF.Tokenize
 import GM.Proof.RenderWF.Panic
 import GM.Props.Attribute
+import GM.Props.ConvertE2E
 
 namespace GM.Props.C03
 open GM GM.Spec
@@ -111,5 +112,35 @@ example : Spec.Inv (mkRCfg { xhtml := true } { table := true }) sampleTree = tru
 example : Spec.safeHtmlOK true (render (mkRCfg { xhtml := true } { table := true }) sampleTree) = true := by
   decide +kernel
 example : (render (mkRCfg {} { table := true }) sampleTree).length > 100 := by decide +kernel
+
+/-- (re-export of `GM.Props.ConvertE2E.convert_safe_wellformed`) `convert_safe_wellformed`. For EVERY source and Unicode class assignment, XHTML and HardWraps on or off: when
+    `convertCore` answers HTML in safe mode (`Unsafe` off), the HTML is accepted by the strict tokenizer, is well nested,
+    uses only the renderer's tags and per-tag allowed attribute names, has inert text and attribute values (no raw `<`
+    in text, no raw `"` in values, every `&` starts a well-formed character reference, the only comment is the
+    placeholder), writes void elements in the style of the output mode (`Spec.safeHtmlOK`, the conclusion of C03
+    `safe_wf`) — and its token structure is well-formed XML (`Spec.xmlOK`, the conclusion of `safe_xhtml_xml`; with XHTML
+    on all void elements are self-closed as part of `safeHtmlOK true`). -/
+theorem convert_safe_wellformed : type_of% @GM.Props.ConvertE2E.convert_safe_wellformed := @GM.Props.ConvertE2E.convert_safe_wellformed
+
+/-- (re-export of `GM.Props.ConvertE2E.convert_safe_grammar`) the same output as a word of the inductive grammar `WFHtml` (C03 `safe_wf_grammar`) -/
+theorem convert_safe_grammar : type_of% @GM.Props.ConvertE2E.convert_safe_grammar := @GM.Props.ConvertE2E.convert_safe_grammar
+
+/-- (re-export of `GM.Props.ConvertE2E.parser_output_satisfies_inv`) `parser_output_satisfies_inv` (what C03 monitors on generated documents, as a theorem). For EVERY source, Unicode
+    class assignment and option set: the tree the parse phases hand to the renderer satisfies `Spec.Inv` — heading
+    levels 1..6, CodeSpan children are Text, no attributes (hence no invalid / duplicate / clashing attribute name), no
+    code-flagged String, no table node outside its place; the footnote strings of the renderer state are the inert
+    defaults. -/
+theorem parser_output_satisfies_inv : type_of% @GM.Props.ConvertE2E.parser_output_satisfies_inv := @GM.Props.ConvertE2E.parser_output_satisfies_inv
+
+/-- (re-export of `GM.Props.ConvertE2E.block_store_heading_levels`) `block_store_heading_levels` (`BlockStoreOK`). For EVERY source: in the node store the block phase (with the
+    link-reference paragraph transformer, guarded or not) returns, every Heading node — reachable from the Document or
+    not — has `1 ≤ Level ≤ 6`. The level is fixed at creation (ATX: the length of the `#` run, declined above 6; setext:
+    1 or 2) and no step of the block phase writes a node's kind or level afterwards. -/
+theorem block_store_heading_levels : type_of% @GM.Props.ConvertE2E.block_store_heading_levels := @GM.Props.ConvertE2E.block_store_heading_levels
+
+/-- (re-export of `GM.Props.ConvertE2E.store_inv_gives_tree_inv`) `store_inv_gives_tree_inv`: from `BlockStoreOK` of ANY block store to the invariant of the tree `docTree` builds from
+    it (the inline clauses — CodeSpan children are Text, no bookkeeping node, no attributes, no String / table node —
+    come from the shape theorem of the inline phase, `GM.Props.Inlines.codespan_holds_text` & co.). -/
+theorem store_inv_gives_tree_inv : type_of% @GM.Props.ConvertE2E.store_inv_gives_tree_inv := @GM.Props.ConvertE2E.store_inv_gives_tree_inv
 
 end GM.Props.C03
